@@ -8,6 +8,7 @@ import PyElf.Core.Construct
 import PyElf.Spec.Primitives
 import PyElf.Model.Utils
 import PyElf.Proofs.Primitives
+import PyElf.Props.TieC16
 namespace PyElf.Props.C16
 open PyElf PyElf.Spec PyElf.Model PyElf.Proofs
 
